@@ -200,6 +200,28 @@ def scanBest (ms : List (RMatch × Nat)) : Option (RMatch × Nat) := (ms.mergeSo
 /-- `$k` values of a match: group text, or "" for a group that did not participate -/
 def capsOf (m : RMatch) : List String := m.groups.map fun g => g.getD ""
 
+/-- the statements of arm `k` -/
+def armBody (arms : List (String × List Stmt × Loc)) (k : Nat) : List Stmt :=
+  match arms[k]? with
+  | some (_, body, _) => body
+  | none => []
+
+/-- the regex text of arm `k` (used in the `Other` context of errors raised in the arm) -/
+def armRegex (arms : List (String × List Stmt × Loc)) (k : Nat) : String :=
+  match arms[k]? with
+  | some (re, _, _) => re
+  | none => ""
+
+theorem armBody_lt (arms : List (String × List Stmt × Loc)) (k : Nat) (h : (arms[k]?).isSome) :
+    sizeOf (armBody arms k) < sizeOf arms := by
+  unfold armBody
+  cases hk : arms[k]? with
+  | none => simp [hk] at h
+  | some arm =>
+    obtain ⟨re, body, loc⟩ := arm
+    have h1 := List.sizeOf_lt_of_mem (List.mem_of_getElem? hk)
+    simp at h1 ⊢; omega
+
 def findShorthand (cfg : Cfg) (name : String) : Option Shorthand := cfg.shorthands.find? (·.name = name)
 
 mutual
@@ -467,18 +489,15 @@ def scanLoop (cfg : Cfg) (fuel : Nat) (env : Env) (arms : List (String × List S
       match scanBest ms with
       | none => pure ()
       | some (m, k) =>
-        match hk : arms[k]? with
-        | none => panicAt "scan:arm index"
-        | some (re, body, _) =>
+        if hk : (arms[k]?).isSome then
           if hm : 0 < m.stop then do
-            have : sizeOf body < sizeOf arms := by
-              have h1 := List.sizeOf_lt_of_mem (List.mem_of_getElem? hk)
-              simp at h1; omega
+            have : sizeOf (armBody arms k) < sizeOf arms := armBody_lt arms k hk
             pushFrame
-            execBlock cfg fuel { env with caps := capsOf m } (.scanArm re) body
+            execBlock cfg fuel { env with caps := capsOf m } (.scanArm (armRegex arms k)) (armBody arms k)
             popFrame
             scanLoop cfg fuel env arms subject (i + m.stop)
           else failP (.err (.base .emptyRegexCapture ""))
+        else panicAt "scan:arm index"
   else pure ()
 termination_by (fuel, sizeOf arms, subject.utf8ByteSize - i + 1)
 
